@@ -233,6 +233,9 @@ func installReflect(e *Engine) {
 	e.intercept["errors.Join"] = func(e *Engine, fr *Frame, c *Ctx, a []Value, _ *ssa.CallCommon) (Value, bool) {
 		return mkErr(StrC("joined error")), true
 	}
+	e.intercept["reflect.DeepEqual"] = func(e *Engine, fr *Frame, c *Ctx, a []Value, _ *ssa.CallCommon) (Value, bool) {
+		return BoolV{e.deepEqual(c, a[0], a[1], map[[2]int]bool{})}, true
+	}
 	e.intercept["fmt.Sprintf"] = func(e *Engine, fr *Frame, c *Ctx, a []Value, _ *ssa.CallCommon) (Value, bool) {
 		f, ok := a[0].(StrV).Concrete()
 		if !ok {
